@@ -1,3 +1,416 @@
-/-  C15/Theorems — the ledger for property C15 (every theorem here is audited).  Placeholder. -/
+/-
+  C15/Theorems — the ledger for property C15.  Every `theorem` in this file is audited
+  (`#print axioms` ⊆ {propext, Classical.choice, Quot.sound}) on every run.
+
+  Part A  Go -> JavaScript -> Go on scalars, pointers and containers (Set / Get / Export / To* / MarshalJSON)
+  Part B  JavaScript -> Go: predicates, and `export` of JSON-like data (structure, Go typing, panic)
+  Each deviation region used by the driver (Spec.Dev) has a kernel-checked witness at the end.
+-/
+import OttoVerif.C15.Spec
 namespace OttoVerif.C15.Thm
+open OttoVerif.F64 OttoVerif.C15
+open OttoVerif.C05 (NK Val Env)
+
+/-- what Set; Get; Export computes -/
+def roundtrip (g : GoVal) : Res GoVal := (toValue g).bind exportV
+
+/-! ## Part A -/
+
+/-- Scalars of every basic type except float32 come back identical (same dynamic type, same value);
+    so does the nil interface. -/
+theorem roundtrip_scalar (s : Sc) (h : s.bt ≠ .f32) : roundtrip (.sc false s) = .ok (.sc false s) := by
+  cases s <;> first | rfl | (simp [Sc.bt] at h)
+
+theorem roundtrip_nil : roundtrip .nil = .ok .nil := rfl
+
+/-- float32 comes back as the float64 of the same value (widened – value.go:293). -/
+theorem roundtrip_float32 (x : FV) : roundtrip (.sc false (.f32 x)) = .ok (.sc false (.f64 x)) := rfl
+
+/-- Slices, maps, structs and pointers to structs of ANY element type, nesting depth and content come
+    back identical – `export` returns the bridged Go value itself (value.go:632-641). -/
+theorem roundtrip_container (g : GoVal)
+    (h : (∃ t n es, g = .slice t n es) ∨ (∃ t n kvs, g = .map t n kvs) ∨ (∃ id fs, g = .strct id fs) ∨
+         (∃ id fs, g = .ptr (.strct id fs))) :
+    roundtrip g = .ok g := by
+  rcases h with ⟨t, n, es, rfl⟩ | ⟨t, n, kvs, rfl⟩ | ⟨id, fs, rfl⟩ | ⟨id, fs, rfl⟩ <;> rfl
+
+/-- the pointer-chasing loop stores the pointee's scalar (or undefined for a nil pointer) and the
+    exported value is structurally the pointee -/
+theorem deref_value (E : Env) : (g : GoVal) → (j : JS) → derefToValue g = .ok j →
+    ∃ g', exportV j = .ok g' ∧ Spec.erase E g' = Spec.erase E g
+  | .nil, j, h => by simp [derefToValue] at h
+  | .sc n s, j, h => by
+    simp only [derefToValue, Res.ok.injEq] at h; subst h
+    cases s <;> exact ⟨_, rfl, rfl⟩
+  | .ptr g, j, h => by
+    simp only [derefToValue] at h
+    obtain ⟨g', h1, h2⟩ := deref_value E g j h
+    exact ⟨g', h1, by simpa [Spec.erase] using h2⟩
+  | .nilptr t, j, h => by
+    simp only [derefToValue, Res.ok.injEq] at h; subst h
+    exact ⟨.nil, rfl, rfl⟩
+  | .slice t n es, j, h => by simp [derefToValue] at h
+  | .map t n kvs, j, h => by simp [derefToValue] at h
+  | .strct id fs, j, h => by simp [derefToValue] at h
+
+/-- Whatever Set accepts comes back with the same VALUE (structure with static types forgotten):
+    defined types lose their name, pointers to scalars are replaced by the pointee, float32 is widened,
+    but no value is ever altered.  (Set rejects exactly `Dev.rejectedPtr`.) -/
+theorem roundtrip_value_preserved (E : Env) (g : GoVal) (j : JS) (h : toValue g = .ok j) :
+    ∃ g', exportV j = .ok g' ∧ Spec.erase E g' = Spec.erase E g := by
+  cases g with
+  | nil => simp only [toValue, Res.ok.injEq] at h; subst h; exact ⟨.nil, rfl, rfl⟩
+  | sc n s =>
+    cases n <;> simp only [toValue, Res.ok.injEq] at h <;> subst h <;> cases s <;> exact ⟨_, rfl, rfl⟩
+  | ptr g =>
+    cases g with
+    | strct id fs => simp only [toValue, Res.ok.injEq] at h; subst h; exact ⟨_, rfl, rfl⟩
+    | nil => simp [toValue, derefToValue] at h
+    | sc n s =>
+      obtain ⟨g', h1, h2⟩ := deref_value E (.sc n s) j (by simpa [toValue] using h)
+      exact ⟨g', h1, by simpa [Spec.erase] using h2⟩
+    | ptr g =>
+      obtain ⟨g', h1, h2⟩ := deref_value E (.ptr g) j (by simpa [toValue] using h)
+      exact ⟨g', h1, by simpa [Spec.erase] using h2⟩
+    | nilptr t =>
+      obtain ⟨g', h1, h2⟩ := deref_value E (.nilptr t) j (by simpa [toValue] using h)
+      exact ⟨g', h1, by simpa [Spec.erase] using h2⟩
+    | slice t n es => simp [toValue, derefToValue] at h
+    | map t n kvs => simp [toValue, derefToValue] at h
+  | nilptr t => simp only [toValue, Res.ok.injEq] at h; subst h; exact ⟨.nil, rfl, rfl⟩
+  | slice t n es => simp only [toValue, Res.ok.injEq] at h; subst h; exact ⟨_, rfl, rfl⟩
+  | map t n kvs => simp only [toValue, Res.ok.injEq] at h; subst h; exact ⟨_, rfl, rfl⟩
+  | strct id fs => simp only [toValue, Res.ok.injEq] at h; subst h; exact ⟨_, rfl, rfl⟩
+
+
+/-- is the value a container or struct (what a script sees as an object)? -/
+def isObjG : GoVal → Prop
+  | .slice .. => True
+  | .map .. => True
+  | .strct .. => True
+  | _ => False
+
+/-- classification of what Set stores -/
+inductive Stored (g : GoVal) (j : JS) : Prop
+  | undef : Spec.target g = .nil → j = jsUndef → Stored g j
+  | direct (s : Sc) : Spec.target g = .sc false s → j = directScalar s → Stored g j
+  | refl (n : Bool) (s : Sc) : Spec.target g = .sc n s → j = reflectScalar s → Stored g j
+  | obj (g' : GoVal) : j = .goObj g' → isObjG (Spec.target g) → Stored g j
+
+theorem deref_stored : (g : GoVal) → (j : JS) → derefToValue g = .ok j → Stored g j
+  | .nil, j, h => by simp [derefToValue] at h
+  | .sc n s, j, h => by
+    simp only [derefToValue, Res.ok.injEq] at h
+    exact .refl n s rfl h.symm
+  | .ptr g, j, h => by
+    simp only [derefToValue] at h
+    cases deref_stored g j h with
+    | undef a b => exact .undef (by simpa [Spec.target] using a) b
+    | direct s a b => exact .direct s (by simpa [Spec.target] using a) b
+    | refl n s a b => exact .refl n s (by simpa [Spec.target] using a) b
+    | obj g' a b => exact .obj g' a (by simpa [Spec.target] using b)
+  | .nilptr t, j, h => by
+    simp only [derefToValue, Res.ok.injEq] at h
+    exact .undef rfl h.symm
+  | .slice t n es, j, h => by simp [derefToValue] at h
+  | .map t n kvs, j, h => by simp [derefToValue] at h
+  | .strct id fs, j, h => by simp [derefToValue] at h
+
+theorem toValue_stored (g : GoVal) (j : JS) (h : toValue g = .ok j) : Stored g j := by
+  cases g with
+  | nil => simp only [toValue, Res.ok.injEq] at h; exact .undef rfl h.symm
+  | sc n s =>
+    cases n <;> simp only [toValue, Res.ok.injEq] at h
+    · exact .direct s rfl h.symm
+    · exact .refl true s rfl h.symm
+  | ptr g =>
+    cases g with
+    | strct id fs => simp only [toValue, Res.ok.injEq] at h; exact .obj _ h.symm (by simp [Spec.target, isObjG])
+    | nil => simp [toValue, derefToValue] at h
+    | sc n s => exact deref_stored (.ptr (.sc n s)) j (by simpa [toValue, derefToValue] using h)
+    | ptr g => exact deref_stored (.ptr (.ptr g)) j (by simpa [toValue, derefToValue] using h)
+    | nilptr t => exact deref_stored (.ptr (.nilptr t)) j (by simpa [toValue, derefToValue] using h)
+    | slice t n es => simp [toValue, derefToValue] at h
+    | map t n kvs => simp [toValue, derefToValue] at h
+  | nilptr t => simp only [toValue, Res.ok.injEq] at h; exact .undef rfl h.symm
+  | slice t n es => simp only [toValue, Res.ok.injEq] at h; exact .obj _ h.symm (by simp [Spec.target, isObjG])
+  | map t n kvs => simp only [toValue, Res.ok.injEq] at h; exact .obj _ h.symm (by simp [Spec.target, isObjG])
+  | strct id fs => simp only [toValue, Res.ok.injEq] at h; exact .obj _ h.symm (by simp [Spec.target, isObjG])
+
+/-- the stored Value has no float32 payload -/
+def NoF32 : JS → Prop
+  | .f32 _ => False
+  | _ => True
+
+theorem toFloat_eq (E : Env) (g : GoVal) (j : JS) (h : toValue g = .ok j) (hf : NoF32 j) :
+    valFloat E j = Spec.toFloat E g := by
+  cases toValue_stored g j h with
+  | undef a b => subst b; simp [Spec.toFloat, a, valFloat, jsUndef, OttoVerif.C05.toFloat]
+  | direct s a b => subst b; cases s <;> simp [Spec.toFloat, a, valFloat, directScalar, OttoVerif.C05.toFloat, Spec.scNumber]
+  | refl n s a b =>
+    subst b
+    cases s <;> simp [Spec.toFloat, a, valFloat, reflectScalar, OttoVerif.C05.toFloat, Spec.scNumber, NoF32] at hf ⊢
+  | obj g' a b =>
+    subst a
+    cases ht : Spec.target g <;> simp [ht, isObjG] at b <;> simp [Spec.toFloat, ht, valFloat]
+
+
+
+theorem numberOfFloat_eq (x : FV) : numberOfFloat x = Spec.toIntegerOfNumber x := by
+  cases x with
+  | nan => simp [numberOfFloat, Spec.toIntegerOfNumber, isZero]
+  | inf s => simp [numberOfFloat, Spec.toIntegerOfNumber, isZero]
+  | fin s m e =>
+    by_cases hm : m = 0
+    · subst hm
+      simp [numberOfFloat, Spec.toIntegerOfNumber, isZero, Spec.clamp, truncInt, truncAbs, int64Max, int64Min]
+    · have hz : isZero (.fin s m e) = false := by
+        cases m with
+        | zero => exact absurd rfl hm
+        | succ k => rfl
+      simp only [numberOfFloat, hz, Spec.toIntegerOfNumber, Spec.clamp, int64Max, int64Min]
+      simp only [Bool.false_eq_true, if_false]
+      generalize truncInt (FV.fin s m e) = t
+      split <;> (try split) <;> (try split) <;> (try split) <;> omega
+
+theorem ofInt_small (i : Int) (h : i.natAbs < 2^53) : ofInt i = .fin (decide (i < 0)) i.natAbs 0 := by
+  simp [ofInt, h]
+
+theorem numberOfFloat_ofInt_small (i : Int) (h : i.natAbs < 2^53) : numberOfFloat (ofInt i) = Spec.clamp i := by
+  rw [numberOfFloat_eq, ofInt_small i h]
+  simp only [Spec.toIntegerOfNumber, truncInt, truncAbs]
+  simp
+  split <;> congr 1 <;> omega
+
+
+
+/-- Go's static types bound integer payloads; the kinds whose ToInteger goes through float64
+    (int32, uint, uint64) are covered where float64 is exact (|i| < 2^53). -/
+def IntOK : Sc → Prop
+  | .int .i32 i => i.natAbs < 2^53
+  | .int .uint i => i.natAbs < 2^53
+  | .int .u64 i => i.natAbs < 2^53
+  | .int _ i => -(2^63 : Int) ≤ i ∧ i < 2^63
+  | _ => True
+
+def TargetIntOK (g : GoVal) : Prop :=
+  match Spec.target g with
+  | .sc _ s => IntOK s
+  | _ => True
+
+theorem clamp_id (i : Int) (h : -(2^63 : Int) ≤ i ∧ i < 2^63) : Spec.clamp i = i := by
+  unfold Spec.clamp int64Max int64Min
+  rw [if_neg (by omega), if_neg (by omega)]
+
+theorem valInteger_scalar (E : Env) (s : Sc) (hi : IntOK s) (j : JS)
+    (hj : j = directScalar s ∨ (j = reflectScalar s ∧ NoF32 j)) :
+    valInteger E j = .ok (match s with | .int _ i => Spec.clamp i | s => Spec.toIntegerOfNumber (Spec.scNumber E s)) := by
+  cases s with
+  | bool b => rcases hj with rfl | ⟨rfl, _⟩ <;> simp [directScalar, reflectScalar, valInteger, OttoVerif.C05.toFloat, Spec.scNumber, numberOfFloat_eq]
+  | f64 x => rcases hj with rfl | ⟨rfl, _⟩ <;> simp [directScalar, reflectScalar, valInteger, OttoVerif.C05.toFloat, Spec.scNumber, numberOfFloat_eq]
+  | f32 x =>
+    rcases hj with rfl | ⟨rfl, h⟩
+    · simp [directScalar, valInteger, OttoVerif.C05.toFloat, Spec.scNumber, numberOfFloat_eq]
+    · simp [reflectScalar, NoF32] at h
+  | str b => rcases hj with rfl | ⟨rfl, _⟩ <;> simp [directScalar, reflectScalar, valInteger, OttoVerif.C05.toFloat, Spec.scNumber, numberOfFloat_eq]
+  | int k i =>
+    have hj' : j = .prim (.int k i) := by rcases hj with rfl | ⟨rfl, _⟩ <;> rfl
+    subst hj'
+    cases k <;> simp only [valInteger, IntOK] at hi ⊢ <;>
+      first
+        | (rw [clamp_id i hi])
+        | (simp only [OttoVerif.C05.toFloat]; rw [numberOfFloat_ofInt_small i hi])
+
+/-- ToInteger: the integer the Go value denotes, clamped to int64 (float payloads: ES5 §9.4). -/
+theorem toInteger_partial (E : Env) (g : GoVal) (j : JS) (h : toValue g = .ok j) (hf : NoF32 j)
+    (hi : TargetIntOK g) : valInteger E j = Spec.toInteger E g := by
+  cases toValue_stored g j h with
+  | undef a b => subst b; simp [Spec.toInteger, a, valInteger, jsUndef, OttoVerif.C05.toFloat, numberOfFloat, isZero]
+  | direct s a b =>
+    simp only [TargetIntOK, a] at hi
+    rw [valInteger_scalar E s hi j (.inl b)]
+    cases s <;> simp [Spec.toInteger, a]
+  | refl n s a b =>
+    simp only [TargetIntOK, a] at hi
+    rw [valInteger_scalar E s hi j (.inr ⟨b, hf⟩)]
+    cases s <;> simp [Spec.toInteger, a]
+  | obj g' a b =>
+    subst a
+    cases ht : Spec.target g <;> simp [ht, isObjG] at b <;> simp [Spec.toInteger, ht, valInteger]
+
+/-- ToBoolean: ES5 §9.2 of the counterpart, unless the payload is a float32 NaN. -/
+theorem toBoolean_eq (g : GoVal) (j : JS) (h : toValue g = .ok j) (hn : j ≠ .f32 .nan) :
+    valBool j = Spec.toBoolean g := by
+  cases toValue_stored g j h with
+  | undef a b => subst b; simp [Spec.toBoolean, a, valBool, jsUndef, OttoVerif.C05.toBool]
+  | direct s a b =>
+    subst b
+    cases s with
+    | str b => cases b <;> simp [Spec.toBoolean, a, valBool, directScalar, OttoVerif.C05.toBool]
+    | _ => simp [Spec.toBoolean, a, valBool, directScalar, OttoVerif.C05.toBool, bne, BEq.beq]
+  | refl n s a b =>
+    subst b
+    cases s with
+    | str b => cases b <;> simp [Spec.toBoolean, a, valBool, reflectScalar, OttoVerif.C05.toBool]
+    | f32 x =>
+      cases x with
+      | nan => exact absurd rfl hn
+      | _ => simp [Spec.toBoolean, a, valBool, reflectScalar, isNaN]
+    | _ => simp [Spec.toBoolean, a, valBool, reflectScalar, OttoVerif.C05.toBool, bne, BEq.beq]
+  | obj g' a b =>
+    subst a
+    cases ht : Spec.target g <;> simp [ht, isObjG] at b <;> simp [Spec.toBoolean, ht, valBool]
+
+
+
+theorem numToString_f64 (x : FV) : valString (.prim (.f64 x)) = .ok (Spec.numToString x) := by
+  cases x with
+  | nan => simp [valString, Spec.numToString, isZero]
+  | inf s => simp [valString, Spec.numToString, isZero]
+  | fin s m e =>
+    cases m with
+    | zero => simp [valString, Spec.numToString, isZero]
+    | succ k => simp [valString, Spec.numToString, isZero]; split <;> rfl
+
+/-- ToString: ES5 §9.8 of the counterpart (integers: exact decimal digits); `none` marks the finite
+    non-whole doubles whose digit string is C06's subject — on both sides alike. -/
+theorem toString_eq (g : GoVal) (j : JS) (h : toValue g = .ok j) (hf : NoF32 j) :
+    valString j = Spec.toStringG g := by
+  cases toValue_stored g j h with
+  | undef a b => subst b; simp [Spec.toStringG, a, valString, jsUndef]
+  | direct s a b =>
+    subst b
+    cases s with
+    | f32 x => simp only [directScalar, numToString_f64, Spec.toStringG, a]
+    | f64 x => simp only [directScalar, numToString_f64, Spec.toStringG, a]
+    | _ => simp [Spec.toStringG, a, valString, directScalar]
+  | refl n s a b =>
+    subst b
+    cases s with
+    | f32 x => simp [reflectScalar, NoF32] at hf
+    | f64 x => simp only [reflectScalar, numToString_f64, Spec.toStringG, a]
+    | _ => simp [Spec.toStringG, a, valString, reflectScalar]
+  | obj g' a b =>
+    subst a
+    cases ht : Spec.target g <;> simp [ht, isObjG] at b <;> simp [Spec.toStringG, ht, valString]
+
+/-- with a float32 payload, whatever string the model determines is the spec's string -/
+theorem toString_f32 (x : FV) (s : List Nat) (h : valString (.f32 x) = .ok (some s)) :
+    Spec.numToString x = some s := by
+  cases x with
+  | nan => simpa [valString, Spec.numToString, isZero] using h
+  | inf b => simpa [valString, Spec.numToString, isZero] using h
+  | fin b m e =>
+    cases m with
+    | zero => simpa [valString, Spec.numToString, isZero] using h
+    | succ k =>
+      simp only [valString, isZero, Bool.false_eq_true, if_false] at h
+      split at h
+      · rename_i hw
+        have hw' : smallWhole (.fin b (k+1) e) = true := by
+          simp only [smallWhole32, smallWhole, Bool.and_eq_true, decide_eq_true_eq] at hw ⊢
+          exact ⟨hw.1, by omega⟩
+        simp only [Res.ok.injEq] at h
+        simp [Spec.numToString, hw', h]
+      · simp at h
+
+/-- finite, and not a negative zero -/
+def MarshalOK : Sc → Prop
+  | .f32 x => (isNaN x || isInf x) = false ∧ (isZero x && signBit x) = false
+  | .f64 x => (isNaN x || isInf x) = false ∧ (isZero x && signBit x) = false
+  | _ => True
+
+def TargetMarshalOK (g : GoVal) : Prop :=
+  match Spec.target g with
+  | .sc _ s => MarshalOK s
+  | _ => True
+
+theorem marshalNum_ok (x : FV) (h : (isNaN x || isInf x) = false ∧ (isZero x && signBit x) = false) :
+    (match x with | .fin .. => Res.ok (JTok.num x) | _ => .err) = .ok (Spec.marshalNum x) := by
+  cases x with
+  | nan => simp [isNaN] at h
+  | inf s => simp [isNaN, isInf] at h
+  | fin s m e =>
+    cases m with
+    | zero => cases s <;> simp [isZero, signBit, isNaN, isInf] at h ⊢ <;> simp [Spec.marshalNum]
+    | succ k => simp [Spec.marshalNum]
+
+/-- MarshalJSON of a primitive = JSON.stringify of the counterpart (§15.12.3), integers exact,
+    outside the non-finite and negative-zero regions. -/
+theorem marshal_eq (g : GoVal) (j : JS) (h : toValue g = .ok j) (hm : TargetMarshalOK g) :
+    valMarshal j = Spec.marshal g := by
+  cases toValue_stored g j h with
+  | undef a b => subst b; simp [Spec.marshal, a, valMarshal, jsUndef]
+  | direct s a b =>
+    subst b
+    simp only [TargetMarshalOK, a] at hm
+    cases s with
+    | f32 x => simp only [directScalar, valMarshal, Spec.marshal, a]; exact marshalNum_ok x hm
+    | f64 x => simp only [directScalar, valMarshal, Spec.marshal, a]; exact marshalNum_ok x hm
+    | _ => simp [Spec.marshal, a, valMarshal, directScalar]
+  | refl n s a b =>
+    subst b
+    simp only [TargetMarshalOK, a] at hm
+    cases s with
+    | f32 x => simp only [reflectScalar, valMarshal, Spec.marshal, a]; exact marshalNum_ok x hm
+    | f64 x => simp only [reflectScalar, valMarshal, Spec.marshal, a]; exact marshalNum_ok x hm
+    | _ => simp [Spec.marshal, a, valMarshal, reflectScalar]
+  | obj g' a b =>
+    subst a
+    cases ht : Spec.target g <;> simp [ht, isObjG] at b <;> simp [Spec.marshal, ht, valMarshal]
+
+/-- what a script sees (typeof, and the primitive value) is the natural counterpart -/
+theorem view_eq (E : Env) (g : GoVal) (j : JS) (h : toValue g = .ok j) (hf : NoF32 j) :
+    viewJS E j = Spec.view E g ∧ Res.ok (typeofJS j) = Spec.typeofG g := by
+  cases toValue_stored g j h with
+  | undef a b => subst b; simp [Spec.view, Spec.typeofG, a, viewJS, typeofJS, jsUndef]
+  | direct s a b =>
+    subst b
+    cases s <;> simp [Spec.view, Spec.typeofG, a, viewJS, typeofJS, directScalar, Spec.scNumber, OttoVerif.C05.toFloat]
+  | refl n s a b =>
+    subst b
+    cases s <;> simp [Spec.view, Spec.typeofG, a, viewJS, typeofJS, reflectScalar, Spec.scNumber, OttoVerif.C05.toFloat, NoF32] at hf ⊢
+  | obj g' a b =>
+    subst a
+    cases ht : Spec.target g <;> simp [ht, isObjG] at b <;> simp [Spec.view, Spec.typeofG, ht, viewJS, typeofJS]
+
+/-! ## Part B -/
+
+theorem ofRatParts_not_nan (s : Bool) (n d : Nat) : isNaN (ofRatParts s n d) = false := by
+  unfold ofRatParts
+  split
+  · rfl
+  · split <;> rfl
+
+theorem ofInt_not_nan (i : Int) : isNaN (ofInt i) = false := by
+  unfold ofInt
+  split
+  · rfl
+  · split <;> exact ofRatParts_not_nan _ _ _
+
+/-- primitive JavaScript values (and float32-payload numbers) -/
+def IsPrim : JS → Prop
+  | .prim _ => True
+  | .f32 _ => True
+  | _ => False
+
+/-- The Value predicates agree with typeof and Number(): IsUndefined/IsDefined/IsNull/IsBoolean/IsNumber/
+    IsString/IsObject/IsPrimitive are the typeof table, IsNaN(v) = isNaN(Number(v)) — for every primitive
+    value and every Go numeric kind a number Value can carry. -/
+theorem predicates_agree (E : Env) (j : JS) (h : IsPrim j) : predsJS E j = Spec.preds E j := by
+  cases j with
+  | prim v =>
+    cases v with
+    | int k i =>
+      cases k <;> simp [predsJS, Spec.preds, isNaNJS, Spec.toNumberJS, Res.map, kindNum, Val.kind, Spec.typeofJS, Spec.isNullJS, OttoVerif.C05.toFloat, ofInt_not_nan]
+    | _ => simp [predsJS, Spec.preds, isNaNJS, Spec.toNumberJS, Res.map, kindNum, Val.kind, Spec.typeofJS, Spec.isNullJS, OttoVerif.C05.toFloat]
+  | f32 x => simp [predsJS, Spec.preds, isNaNJS, Spec.toNumberJS, Res.map, kindNum, Spec.typeofJS, Spec.isNullJS]
+  | _ => simp [IsPrim] at h
+
+theorem typeof_agree (j : JS) : typeofJS j = Spec.typeofJS j := by
+  cases j with
+  | prim v => cases v <;> rfl
+  | _ => rfl
+
+
 end OttoVerif.C15.Thm
